@@ -7,7 +7,8 @@ from typing import Dict, List, Set
 
 from ..core import rule
 from ..dataflow import DefUse
-from ..program import AnalysisError, dotted, src, walk_local
+from ..program import AnalysisError, dotted, src
+from ..core import walk_local  # inline-aware
 from .common import handler_catching, handler_body_nodes, where
 from .storelib import facts
 
@@ -220,8 +221,9 @@ def s4(ctx):
     gr = ctx.own_method(WEB + ".XandikosBackend", "get_resource")
     table = None
     for n in walk_local(gr.node):
-        if isinstance(n, ast.Subscript) and isinstance(n.value, ast.Dict) and isinstance(n.slice, ast.Call) and (dotted(n.slice.func) or "").endswith("get_type"):
-            table = n.value
+        if isinstance(n, ast.Subscript) and isinstance(n.slice, ast.Call) and (dotted(n.slice.func) or "").endswith("get_type") \
+                and ctx.P.dict_literal(gr, n.value) is not None:
+            table = ctx.P.dict_literal(gr, n.value)
     if table is None:
         raise AnalysisError("get_resource: type dispatch table not found")
     mapping = {}
